@@ -2,7 +2,7 @@
    Vocabulary: C01/Spec.v (header), Graph/MSep.v (msep, mconn: m-connecting simple step-paths), Graph/Walks.v. *)
 From Coq Require Import List Arith Bool.
 From PG Require Import Base.ListSet Base.Closure Graph.MGraph Graph.MSep Graph.MSepDec Graph.Walks
-  C01.Model C01.Spec C01.Proofs C01.Examples.
+  C01.Model C01.Spec C01.Run C01.Proofs C01.Examples.
 Import ListNotations.
 
 (* main clause: the model of m_separated answers True exactly when no m-connecting PATH joins X and Y *)
@@ -52,6 +52,17 @@ Theorem msep_model_dec : forall g X Y Z,
   msep_model g X Y Z = Some (msep_dec g X Y Z).
 Proof. exact C01.Proofs.msep_model_dec. Qed.
 Print Assumptions msep_model_dec.
+
+(* the four clauses under the BOOLEAN hypotheses that the extracted driver emits for every generated case
+   (Run.class_flags, Run.query_ok) and that the harness requires to be true *)
+Theorem msep_correct_b : forall g X Y Z,
+  acyclicb g = true -> ancestral_undb g = true -> query_ok g X Y Z = true ->
+  (msep_model g X Y Z = Some true <-> msep g X Y Z) /\
+  (msep_model g X Y Z = Some false <-> exists x y p, In x X /\ In y Y /\ mconn g Z x p y) /\
+  msep_model g X Y Z = Some (msep_dec g X Y Z) /\
+  msep_model g X Y Z = msep_model g Y X Z.
+Proof. exact C01.Proofs.msep_correct_b. Qed.
+Print Assumptions msep_correct_b.
 
 (* shared: the brute-force oracle reflects the Prop (used by the bounded theorems of other properties) *)
 Theorem msep_dec_spec : forall g X Y Z, incl Z (V g) -> (msep_dec g X Y Z = true <-> msep g X Y Z).
